@@ -45,7 +45,7 @@ def mitm_setup(case):
     """rewrite the CONNECT request on the wire (re-signed: a CONNECT carries no secret signature) or the CONNECT/ACK"""
     from nintendo.nex import prudp
     def setup(sim, out):
-        if not (case.get("req_mut") or case.get("resp") or case.get("replay")):
+        if not (case.get("req_mut") or case.get("resp") or case.get("replay") or case.get("other_user")):
             return
         s = out.settings_s
         enc = prudp.PRUDPMessageV1(s)
@@ -66,6 +66,27 @@ def mitm_setup(case):
                     if case.get("replay"):
                         # the same CONNECT again, long after the connection is established
                         net.inject(tx.src, tx.dst, tx.data, 0.3)
+                    if case.get("other_user"):
+                        # long after the connection is established: a CONNECT from the same address, port and stream type that carries
+                        # a VALID, fresh ticket and request of ANOTHER user (a legitimate user of the same server behind the same NAT, or
+                        # the client's next login arriving while the old record still exists). It creates no connection; the
+                        # established one must keep the identity of the ticket that admitted it.
+                        import copy
+                        from nintendo.nex import kerberos, common, streams as streams_nex
+                        sk2 = bytes((i * 37 + 11) & 0xFF for i in range(s["kerberos.key_size"]))
+                        t = kerberos.ServerTicket()
+                        t.timestamp = common.DateTime.fromtimestamp(sim.epoch)
+                        t.source = case["other_user"]
+                        t.session_key = sk2
+                        st = streams_nex.StreamOut(s)
+                        st.buffer(t.encrypt(case.get("server_key", SERVER_KEY), s))
+                        sub = streams_nex.StreamOut(s)
+                        sub.pid(case["other_user"]); sub.u32(2000); sub.u32(0x1234567)
+                        st.buffer(kerberos.KerberosEncryption(sk2).encrypt(sub.get()))
+                        q = copy.copy(p)
+                        q.payload = st.get()
+                        q.signature = enc.calc_packet_signature(q, b"", enc.calc_connection_signature(tx.src))   # what the server verifies a CONNECT of this address with
+                        net.inject(tx.src, tx.dst, enc.encode(q), 0.3)
                 m = case.get("req_mut")
                 if m:
                     l1 = struct.unpack_from("<I", p.payload)[0]
@@ -76,11 +97,12 @@ def mitm_setup(case):
                     elif m[0] == "byte":
                         b = bytearray(req); b[m[1] % len(b)] ^= m[2]; req = bytes(b)
                     elif m[0] == "drop": req = None
+                    elif m[0] == "identity": pass          # control: re-built and re-signed but unchanged
                     elif m[0] == "whole-trunc":
                         p.payload = p.payload[:m[1]]
                     if m[0] != "whole-trunc":
                         p.payload = tick + (struct.pack("<I", len(req)) + req if req is not None else b"")
-                    p.signature = enc.calc_packet_signature(p, b"", enc.calc_connection_signature(ps.SERVER))
+                    p.signature = enc.calc_packet_signature(p, b"", enc.calc_connection_signature(tx.src))   # what the server verifies a CONNECT of this address with
                     net.inject(tx.src, tx.dst, enc.encode(p), 0.004)
                     return []
             if p.type == 1 and p.flags & 1 and tx.src == ps.SERVER and case.get("resp"):
@@ -142,7 +164,11 @@ def work(args):
             pid_seen = sess.server_pid
             if pid_seen != case.get("ticket_pid", case.get("pid", 1000)):
                 bad.append("handler observed pid %r, ticket issued %r" % (pid_seen, case.get("ticket_pid", case.get("pid", 1000))))
-            if case.get("replay") and connected:
+            if case.get("other_user"):
+                if getattr(sess, "server_pid_end", None) != pid_seen:
+                    bad.append("the handler admitted for user %r observes user %r on the same connection after a CONNECT carrying another user's valid ticket arrived from the same address"
+                               % (pid_seen, getattr(sess, "server_pid_end", None)))
+            if (case.get("replay") or case.get("other_user")) and connected:
                 if sess.got.get(("s", 0)) != [b"hello"] or sess.got.get(("c", 0)) != [b"world"]:
                     bad.append("data did not flow after a replayed CONNECT: %r / %r" % (sess.got.get(("s", 0)), sess.got.get(("c", 0))))
                 if sess.extra_handlers:
@@ -175,6 +201,7 @@ def cases(rng, quick):
     out.append(dict(name="client-wrong-session-key", client_wrong_sk=True, expect=NO))
     out.append(dict(name="empty-ticket", ticket_mut=("empty",), expect=NO))
     out.append(dict(name="request-missing", req_mut=("drop",), expect=NO))
+    out.append(dict(name="request-rebuilt-unchanged", req_mut=("identity",), expect=OK))      # the re-signing of the mutation cases is sound
     # ticket / request mutations
     for tv in (0, 1):
         tlen = (8 + 4 + 32 + 16) if tv == 0 else (4 + 16 + 4 + 8 + 4 + 32 + 16)
@@ -189,8 +216,10 @@ def cases(rng, quick):
     for k in ks:
         out.append(dict(name="request-trunc", req_mut=("trunc", k), expect=NO))
         out.append(dict(name="request-byte", req_mut=("byte", k, 1 << rng.randrange(8)), expect=NO))
-    for k in ([0, 3, 4, 40, 70] if quick else range(0, 100, 3)):
+    # the CONNECT payload of the default configuration is 4 + 60 (ticket) + 4 + 28 (request) = 96 bytes
+    for k in ([0, 3, 4, 40, 70, 95] if quick else range(0, 96)):
         out.append(dict(name="payload-trunc", req_mut=("whole-trunc", k), expect=NO))
+    out.append(dict(name="payload-not-truncated", req_mut=("whole-trunc", 96), expect=OK))
     # C'. the same ticket shown to differently keyed servers of one process, in every order (also: key rotation K1 -> K2 -> K1)
     K1, K2 = dict(name="right-server", expect=OK), dict(name="other-server", server_key=b"another key", expect=NO)
     for transport, version in (("udp", 1), ("udp", 0), ("lite", 1)):
@@ -200,6 +229,9 @@ def cases(rng, quick):
                                 history=[dict(h, transport=transport, version=version, ticket_version=tv) for h in hist], expect=None))
     # D. replay
     out.append(dict(name="replayed-connect", replay=True, expect=OK))
+    for pid_size in (4, 8):
+        for tv in (0, 1):
+            out.append(dict(name="second-connect-other-user", other_user=rng.choice([1001, 7, 2 ** 31]), pid_size=pid_size, ticket_version=tv, expect=OK))
     # E. crafted responses: the server admits (its side is honest), the client must refuse
     SRV_ONLY = {"server": True, "client": False}
     for r in [("size", 0), ("size", 4), ("size", 7), ("size", 9), ("size", 12), ("check", 1), ("check", -1), ("check", 2 ** 31), ("len", 0), ("len", 8), ("len", 5)]:
@@ -212,7 +244,7 @@ def run(ctx):
     cs = cases(ctx.rng, quick)
     ctx.rule = ("one real keyed session per case: honest matrix (3 encodings x pid 4/8 x key 16/32 x ticket version 0/1), ticket age "
                 "{-5,0,60,119,120,121,3600,86400} s x TZ {UTC, +9, -5}, wrong ticket/server/session keys, mismatched user id, "
-                "every (quick: sampled) truncation and single-byte mutation of ticket and request, truncated payloads, replayed CONNECT, "
+                "every (quick: sampled) truncation and single-byte mutation of ticket and request, truncated payloads, replayed CONNECT, a later CONNECT from the same address carrying another user's valid ticket, "
                 "11 crafted responses, the same ticket shown to differently keyed servers of one process in every order, and a sample of the cases re-run in a child "
                 "interpreter started with -O (assertions compiled away); oracle = admission iff honest+fresh, handler pid = ticket pid, client completes iff response exact; "
                 "UDP sessions replayed through the Lean L1 model; distinct non-trivial = distinct cases")
